@@ -305,6 +305,9 @@ def r11_paths(text, m, ed, fns=()):
         j = kw + 1
         while j < len(toks) and toks[j].text not in ("{", "(", ";"):
             if toks[j].text == "where":
+                # where-clause of a braced struct: skip to its `{`
+                while j < len(toks) and toks[j].text not in ("{", ";"):
+                    j += 1
                 break
             j += 1
         # generics may contain parens? (Fn(..)) rare -- not handled
